@@ -201,6 +201,95 @@ def rand_request(rng, tricky=0.0):
 
 
 # --------------------------------------------------------------------------
+# trees for `annotate --recursive DIR`
+
+TREE_DIRS = ["src", "src/pkg", "src/pkg/deep/er", "docs", "my docs/sub dir", "données", "a.d", "lib.py", "x/y/z"]
+SIBLINGS = [
+    "",                                                                                       # an empty FILE.license
+    "SPDX-FileCopyrightText: 2001 Sibling Holder\n\nSPDX-License-Identifier: Zlib\n",
+    "SPDX-FileCopyrightText: 2019 Old Owner\n",
+    "SPDX-License-Identifier: ISC\n",
+    "SPDX-FileContributor: Sibling Hand\n",
+    "SPDX-FileCopyrightText: 2001 Sibling Holder\nSPDX-FileContributor: Sibling Hand\n\nSPDX-License-Identifier: Zlib\n",
+    "SPDX-FileCopyrightText: 2001 Sibling Holder\r\n\r\nSPDX-License-Identifier: Zlib\r\n",
+]
+
+
+def under(name, path):
+    """is the file `name` (posix, relative to the project) below the directory argument `path`, or named by it?"""
+    norm = os.path.normpath(path)
+    if norm == ".":
+        return True
+    return os.path.normpath(name) == norm or os.path.normpath(name).startswith(norm + os.sep)
+
+
+def rand_tree(rng, entries, n_files):
+    """A project tree for one recursive run: commentable files of table types, binary files, files of unrecognised and of
+    uncommentable types, in nested directories, each with or without an existing FILE.license (empty, or holding
+    information).  Returns the list of file records (the `files` of an e2e case)."""
+    dirs = rng.sample(TREE_DIRS, rng.randint(1, 3)) + [""]
+    files, seen = [], set()
+    for _ in range(n_files):
+        d = rng.choice(dirs)
+        r = rng.random()
+        if r < 0.62:
+            kind, key, style = rng.choice(entries)
+            body, planted = rand_body(rng, style)
+            f = {"name": name_for(kind, key), "body": body or "payload = 1\n", "entry": [kind, key, style], "kind": "table"}
+        elif r < 0.80:
+            kind, key, style = rng.choice(entries)
+            f = {"name": name_for(kind, key), "hex": rng.choice(BINARY_BODIES).hex(), "entry": [kind, key, style], "kind": "binary"}
+        else:
+            body, planted = rand_body(rng, None)
+            f = {"name": rng.choice(UNRECOGNISED), "body": body or "payload\n", "kind": "unrecognised"}
+        f["name"] = (d + "/" if d else "") + f["name"]
+        low = f["name"].lower()
+        if low in seen or any(low.startswith(x + "/") or x.startswith(low + "/") for x in seen):
+            continue
+        seen.add(low)
+        if rng.random() < 0.45:
+            f["sib"] = rng.choice(SIBLINGS)
+        files.append(f)
+    return files
+
+
+def tree_case(rng, entries, n_files=6):
+    """One recursive e2e case: a tree, the path arguments (directories, spelled in several ways, now and then a file
+    named directly next to them), the options, the request; every file record carries `scope` (generator's ground
+    truth: is it named, or below a named directory?)."""
+    files = rand_tree(rng, entries, n_files)
+    top = sorted({f["name"].split("/")[0] for f in files if "/" in f["name"]})
+    dirs = sorted({os.path.dirname(f["name"]) for f in files if "/" in f["name"]})
+    r = rng.random()
+    if r < 0.25 or not top:
+        paths = ["."]
+    elif r < 0.55:
+        paths = rng.sample(top, rng.randint(1, len(top)))
+    else:
+        paths = rng.sample(dirs, rng.randint(1, min(2, len(dirs))))
+    spell = rng.random()
+    if spell < 0.15:
+        paths = ["./" + p for p in paths]
+    elif spell < 0.3:
+        paths = [p + "/" for p in paths]
+    elif spell < 0.4 and top:
+        paths = [top[0] + "/../" + p for p in paths]
+    loose = [f["name"] for f in files if not any(under(f["name"], p) for p in paths)]
+    if loose and rng.random() < 0.3:
+        paths.append(rng.choice(loose))          # a file named directly, next to the directories
+    for f in files:
+        f["scope"] = any(under(f["name"], p) for p in paths)
+    o = {"prefix": rng.choice(PREFIXES), "year": rng.choice([None, "exclude", ["2019"], ["2015", "2021"]]),
+         "tmpl": rng.choice(["default"] * 5 + ["adds-text", "no-contributors", "commented"]),
+         "dot": rng.choice([None, "force", "fallback", "fallback", "skip", "skip"]),
+         "no_replace": rng.random() < 0.1, "merge": rng.random() < 0.1, "skip_existing": rng.random() < 0.05}
+    if all(f["kind"] != "unrecognised" for f in files if f["scope"]) and rng.random() < 0.5:
+        o["dot"] = None
+    cpr, lic, con = rand_request(rng)
+    return dict(o, files=files, paths=paths, recursive=True, cpr=cpr, lic=lic, con=con)
+
+
+# --------------------------------------------------------------------------
 # the end-to-end runner
 
 def annotate_args(case):
